@@ -488,9 +488,17 @@ Val evalExpr(const ExprP &e, const LeafFn &leaf)
     case Op::ASINH: return unary(K(0), f_asinh, trigRange);
     case Op::ACOSH: return unary(K(0), f_acosh, aboveOne);
     case Op::ATANH: return unary(K(0), f_atanh, insideUnit);
-    case Op::ASECH: return unary(K(0), f_asech, openUnitPositiveModerate);
-    case Op::ACSCH: return unary(K(0), f_acsch, moderateNonzero);
-    case Op::ACOTH: return unary(K(0), f_acoth, outsideUnitModerate);
+    case Op::ASECH:
+    case Op::ACSCH:
+    case Op::ACOTH: {
+        // the profiles implement these three with logarithms of sums (log(1/x + sqrt(1/x^2 +- 1)), 0.5*log((x+1)/(x-1))):
+        // accurate to ~1e-12 relative on the moderate domain, which is carried as an error bound
+        Val r = e->op == Op::ASECH ? unary(K(0), f_asech, openUnitPositiveModerate) : (e->op == Op::ACSCH ? unary(K(0), f_acsch, moderateNonzero) : unary(K(0), f_acoth, outsideUnitModerate));
+        if (r.ok) {
+            r.e += 4e-12 * std::fabs(r.v);
+        }
+        return r;
+    }
     case Op::PIECEWISE: {
         size_t n = e->kids.size();
         size_t pairs = e->hasOtherwise ? (n - 1) / 2 : n / 2;
@@ -641,6 +649,16 @@ std::vector<int> stateQuantities(const SemModel &m)
     return s;
 }
 
+static bool anyScaledInstance(const Quantity &q)
+{
+    for (const auto &in : q.inst) {
+        if (in.scale != q.inst[0].scale) {
+            return true;
+        }
+    }
+    return false;
+}
+
 // value of quantity `qi` as seen through instance `inst` (in that instance's units), given home-unit values
 static Val seenThrough(const SemModel &m, const std::vector<Val> &home, int qi, int comp)
 {
@@ -660,7 +678,10 @@ static Val seenThrough(const SemModel &m, const std::vector<Val> &home, int qi, 
     double f = sHome / sHere;
     Val r;
     r.v = h.v * f;
-    r.e = h.e * std::fabs(f) + (f == 1.0 ? 0.0 : 2.0 * ulpOf(r.v));
+    // The analyser's primary variable of a class need not be the home variable: even a copy with the home's units may
+    // be read through a scaling (there and back), so every read of a non-constant carries a couple of ulps.
+    bool exactRead = f == 1.0 && (q.kind == QKind::CONSTANT || q.kind == QKind::VOI || q.kind == QKind::STATE) && !anyScaledInstance(q);
+    r.e = h.e * std::fabs(f) + (exactRead ? 0.0 : 4.0 * ulpOf(r.v));
     return r;
 }
 
